@@ -469,7 +469,7 @@ func (c *Ctx) globalAxioms() []string {
 func (ob *Obligation) isFrame() bool {
 	i := strings.LastIndex(ob.Name, "/")
 	n := ob.Name[i+1:]
-	return strings.HasPrefix(n, "frame") || strings.HasPrefix(n, "inv-keep[fnframe") || strings.HasPrefix(n, "inv-keep[frame:")
+	return strings.HasPrefix(n, "frame") || strings.HasPrefix(n, "inv-keep[fnframe") || strings.HasPrefix(n, "inv-keep[frame:") || strings.HasPrefix(n, "variant")
 }
 
 func (ob *Obligation) query(prelude string, gax []string) string {
